@@ -791,7 +791,7 @@ def extra_checks(ctx):
             fails.append({"what": f"strip_peptides([{s!r}]) = {g!r} but the model gives {m!r}",
                           "failing_input": {"fn": "strip", "col": [s], "tags": ["strip", "from-exhaustive"]}})
             break
-    info["exhaustive"] = {"alphabet": ALPHA, "regex_vs_scanner_strings": len(strs), "regex_comparisons": nre,
+    info["exhaustive_strip_sweep"] = {"alphabet": ALPHA, "regex_vs_scanner_strings": len(strs), "regex_comparisons": nre,
                           "column_len": len(strs), "single_row_columns": nsingle}
     # (d) oracle contracts on the recorded values: DataFrame.sample(frac=1) draws every retained row exactly once
     nord = ndup = nmiss = 0
